@@ -102,6 +102,39 @@ CLAIMED['C13'] = dict(
    ref="DESIGN.md sections 5 (C13) and 6",
    note=NOTE + "; table rows are program data enumerated completely; HexstrN ('%X' formatting) is ASCII by A-LIB")
 
+_PARSE_NOTE = (NOTE + "; the parser interface contract (PIC, contracts/parsers.py) is assumed for the parser classes whose parse() "
+               "is not under contract here (LatexDelimitedExpressionParser and subclasses, the call parsers, LatexArgumentsParser, "
+               "verbatim/optional/stdarg parsers, LatexExpressionParser.parse's retry loop); collector services that inspect the "
+               "whole node list (get_final_nodelist, pos_start, LatexNodeList.__init__) are assumed; spec.get_node_parser of user "
+               "subclasses is outside (A-DYN)")
+CLAIMED['C01'] = dict(
+   text="Proof of the span contracts that carry the tiling, for all strings, positions and parsing-state switches: tokenizer "
+        "contracts of C11 (no gap, token fields partition their slice); collector invariant COV (nodes collected so far are "
+        "consecutive, pending characters are exactly the source text between them and the reader) preserved by "
+        "process_one_token / flush / finalize / process_tokens on every exit in strict mode, ordered non-overlapping cover in "
+        "tolerant mode; chars and comment nodes carry their source slice; LatexGeneralNodesParser.parse returns a list "
+        "spanning exactly what was consumed; parse_content hands back a node that starts at the construct's start and ends at "
+        "the reader, given the parser interface contract. Top-level tiling and nesting for whole documents follow by "
+        "induction over parser invocations: stated, not mechanised.",
+   ref="DESIGN.md section 5, C01", note=_PARSE_NOTE)
+CLAIMED['C05'] = dict(
+   text="Proof of the mechanisms: exception effects (raises-closed per function: only LatexWalkerParseError and the internal "
+        "control exceptions between the functions proved to catch them), every subscript/attribute/binding well-defined on "
+        "all paths of the functions under contract, every raise site of the parse-error family located (0 <= pos <= len(s)), "
+        "_ParsingContext.__exit__ fills in line/column of the error's own position (C20) and propagates in strict mode, "
+        "illegal closing tokens are never silently accepted by the collector, a \\begin/\\end macro is no expression, a "
+        "required stop condition not met raises. 'Always rejected' for every well-formed document plus one fault is the "
+        "stated (not mechanised) lemma over these mechanisms.",
+   ref="DESIGN.md section 5, C05", note=_PARSE_NOTE)
+CLAIMED['C06'] = dict(
+   text="Proof of the mechanisms: in tolerant mode __exit__ swallows every LatexWalkerParseError and remembers the error object, "
+        "parse_content then returns the error's recovery nodes and resets the reader to the recovery token without moving "
+        "backwards; every token (incl. recovery tokens) advances, process_one_token makes progress in both modes and "
+        "process_tokens' loop has the variant len(s) - position; the general-nodes parser attaches everything collected before "
+        "the error; the tolerant flag is read only at the error-handling entry points (AST scan), so an error-free run executes "
+        "the same statements in both modes, and end-of-stream / successful parser results are returned identically in both modes.",
+   ref="DESIGN.md section 5, C06", note=_PARSE_NOTE)
+
 NA = {
 }
 DEFAULT_NA = "check not built yet (work in progress; see DESIGN.md section 5 for the planned contracts)"
